@@ -26,6 +26,10 @@ type descriptor struct {
 	Lang     string `json:"lang"`     // expr|xpath
 	Schedule []int  `json:"schedule"` // answer order
 	DeclSeed int    `json:"declSeed"`
+	// Loop: the inclusive block sits in a loop that is taken Loop more times:
+	// the SAME fork and join gateways are activated again (their bookkeeping of
+	// the previous activation must not leak into the next)
+	Loop int `json:"loop,omitempty"`
 }
 
 func task() *gen.Block { return &gen.Block{K: "task", Def: -1} }
@@ -62,9 +66,36 @@ func buildAST(d descriptor, vars map[string]any) *gen.Block {
 		if len(d.Order) == d.NB {
 			inc.Order = d.Order
 		}
+		if d.Loop > 0 {
+			lv := fmt.Sprintf("lp%d", rep+1)
+			vars[lv] = false
+			lt := &gen.Block{K: "task", Def: -1, Results: []string{lv}, LoopVar: lv}
+			body := &gen.Block{K: "seq", Def: -1, Kids: []*gen.Block{inc, lt}}
+			top.Kids = append(top.Kids, &gen.Block{K: "loop", Def: -1, Kids: []*gen.Block{body}, Conds: []*gen.Cond{gen.BoolVar(lv)}, LoopVar: lv}, task())
+			continue
+		}
 		top.Kids = append(top.Kids, inc, task())
 	}
 	return top
+}
+
+// loopAnswers plans the answers of the loop tasks: Loop times "again", then "leave".
+func loopAnswers(d descriptor, ast *gen.Block) map[string][]model.Answer {
+	out := map[string][]model.Answer{}
+	if d.Loop <= 0 {
+		return out
+	}
+	for id, blk := range gen.Lower(ast).TaskOf {
+		if blk.LoopVar == "" {
+			continue
+		}
+		var as []model.Answer
+		for i := 0; i < d.Loop; i++ {
+			as = append(as, model.Answer{Kind: model.AnsOK, Results: map[string]any{blk.LoopVar: true}})
+		}
+		out[id] = append(as, model.Answer{Kind: model.AnsOK, Results: map[string]any{blk.LoopVar: false}})
+	}
+	return out
 }
 
 func activated(d descriptor) int {
@@ -105,7 +136,7 @@ func maxInt(a, b int) int {
 func run(t interface{ Fatalf(string, ...any) }, test string, d *descriptor, pick func(int) int) *drive.Outcome {
 	vars := map[string]any{}
 	ast := buildAST(*d, vars)
-	c := &drive.Case{Prog: ast, Lang: d.Lang, Vars: vars, Answers: map[string][]model.Answer{}, Schedule: d.Schedule, DeclSeed: d.DeclSeed}
+	c := &drive.Case{Prog: ast, Lang: d.Lang, Vars: vars, Answers: loopAnswers(*d, ast), Schedule: d.Schedule, DeclSeed: d.DeclSeed}
 	hash := rec.Hash(d)
 	rec.Begin(test, hash, d)
 	out := drive.RunLockstep(c, pick, nil)
@@ -134,7 +165,7 @@ func replayIfAsked(t *testing.T) bool {
 	}
 	vars := map[string]any{}
 	ast := buildAST(rd, vars)
-	c := &drive.Case{Prog: ast, Lang: rd.Lang, Vars: vars, Answers: map[string][]model.Answer{}, Schedule: rd.Schedule, DeclSeed: rd.DeclSeed}
+	c := &drive.Case{Prog: ast, Lang: rd.Lang, Vars: vars, Answers: loopAnswers(rd, ast), Schedule: rd.Schedule, DeclSeed: rd.DeclSeed}
 	out := drive.RunLockstep(c, nil, nil)
 	if out.Symptom != "" {
 		fmt.Printf("REPRODUCED %s: %s\n", out.Symptom, out.Detail)
@@ -229,7 +260,7 @@ func TestC05Random(t *testing.T) {
 		nb := rapid.IntRange(1, 4).Draw(rt, "nb")
 		d := descriptor{NB: nb, Mask: rapid.IntRange(0, 1<<nb-1).Draw(rt, "mask"), Def: rapid.IntRange(-1, nb-1).Draw(rt, "def"),
 			Repeat: rapid.IntRange(1, 2).Draw(rt, "repeat"), Lang: rapid.SampledFrom([]string{"expr", "xpath"}).Draw(rt, "lang"),
-			DeclSeed: rapid.IntRange(0, 300).Draw(rt, "declSeed")}
+			DeclSeed: rapid.IntRange(0, 300).Draw(rt, "declSeed"), Loop: rapid.SampledFrom([]int{0, 0, 1, 2}).Draw(rt, "loop")}
 		for i := 0; i < nb; i++ {
 			d.Body = append(d.Body, rapid.IntRange(0, 3).Draw(rt, "body"))
 			d.EarlyEnd = append(d.EarlyEnd, rapid.Bool().Draw(rt, "early"))
@@ -242,6 +273,9 @@ func TestC05Random(t *testing.T) {
 		}
 		out := run(rt, "TestC05Random", &d, pick)
 		cls := []string{fmt.Sprintf("nb=%d", nb), "lang=" + d.Lang, fmt.Sprintf("repeat=%d", d.Repeat), fmt.Sprintf("activated=%d", activated(d))}
+		if d.Loop > 0 {
+			cls = append(cls, "gatewaysReentered")
+		}
 		if out.Stuck {
 			cls = append(cls, "no-effective-flow")
 		}
